@@ -277,7 +277,7 @@ def run(prop, tier, seed, replay=None):
     try:
         mc_states = mc_trans = 0
         mc_runs = []
-        if replay is None:
+        if replay is None and not os.environ.get("VERIF_DEV_SKIP_MC"):
             # ---- (A) exhaustive model checking
             for c in MC[prop]["quick" if quick else "thorough"]:
                 r = run_tlc_mc("MCReplica", mc_cfg(c), timeout=900 if quick else 7200)
